@@ -52,6 +52,22 @@ CLAIMED = {
          "transparency/differential oracle + conservation check of Prometheus counters against harness event counts", "DESIGN.md §4 C20"),
 }
 
+
+CLAIMED.update({
+ "C05": ("exploration",
+         "Generated concurrent programs in four workload classes (plain, nested publish from the receive loop, Subscribe/cancel churn, both) x 12 configurations with 1..3 consumers per subscription, delayed acks, nack sequences and never-ack probes; an online in-flight counter per subscription (must never exceed 1), blocking-mode ack-before-return and publish-order checks on logical stamps, and a progress check at quiescence (a Publish still blocked must be explained by a withheld Ack).",
+         "Held on the programs/interleavings observed; one genuine deadlock (nested publish + pending writer in blocking mode) is an open known finding matched by its exact witness shape.",
+         "online invariant monitor (in-flight counter) + offline ordering checks over stamped history + quiescence-based deadlock detection", "DESIGN.md §4 C05"),
+ "C07": ("fault_enumeration",
+         "Pairwise enumeration: operation A parked at each of 17 hook points of Publish/Subscribe/send loop/teardown/Close/decorator pump while action B in {Close, cancel, concurrent double Close, Publish, Subscribe} runs, x persistent x blocking x buffer x {bare, 1, 2 decorators} x reader {drains, holds one unsettled, never reads, nacks everything} = 8160 cells (thorough: all; quick: a seed-rotated sixth), plus random concurrent programs with Close arriving mid-run; every call must return (quiescence detector), no panic/crash/race, channels closed, Publish/Subscribe fail after Close, no product goroutine left.",
+         "Exhaustive over the stated grid of forced pairs only; interleavings between hook points come from the scheduler, yield injection and the race detector.",
+         "forced pairwise interleaving enumeration via hook parks + quiescence detector + goroutine-leak filter + race detector + crash attribution", "DESIGN.md §4 C07"),
+ "C11": ("exploration",
+         "Persistent GoChannel: forced overlaps (Publish or Subscribe or the send loop parked at each of 10 hook points while the opposite operation runs or blocks behind it) x buffer x blocking x messages-before x older-subscription, plus random programs with subscriptions started at random moments; at quiescence every subscription's received multiset must equal the set of successfully published UUIDs, each exactly once.",
+         "Always-acking consumers; Close only after the judgement.",
+         "forced Publish/Subscribe overlaps via hook parks + exactly-once multiset check over recorded deliveries at quiescence", "DESIGN.md §4 C11"),
+})
+
 NOT_YET = {}
 
 def hook_commits():
